@@ -23,6 +23,7 @@ class Acc(object):
         self.violations = []
         self.vcount = Counter()
         self.counters = Counter()
+        self.extras = []
         self.nviol = 0
         self.samples = {}
         self.reached = 0
@@ -45,6 +46,8 @@ class Acc(object):
                 self.violations.append(v)
         for k, n in (j.get("counters") or {}).items():
             self.counters[k] += n
+        if j.get("extra") is not None and len(self.extras) < 5000:
+            self.extras.append(j["extra"])
         s = j.get("sample")
         if s is not None:
             lst = self.samples.setdefault(cls, [])
@@ -61,6 +64,7 @@ class Acc(object):
                 have[v.get("_vkey")] += 1
         self.vcount.update(o.vcount)
         self.counters.update(o.counters)
+        self.extras.extend(o.extras[:max(0, 5000 - len(self.extras))])
         for k, lst in o.samples.items():
             mine = self.samples.setdefault(k, [])
             for s in lst:
